@@ -53,6 +53,7 @@ inductive Obs where
   | sub (k : Nat)
   | stats (alloc avail total unavail : Nat)
   | bool (b : Bool)
+  | list (l : List (Nat × Nat))      -- all (key, value), sorted by key
   deriving Repr, DecidableEq
 
 /-- Allocate -/
@@ -130,6 +131,9 @@ def owner (s : State) (a : Nat) : Obs :=
   | some k => .sub k
   | Option.none => .none
 
+/-- every holding, sorted by key (dhcp.Pool: the `allocated` map as the snapshot hook returns it) -/
+def listing (s : State) : Obs := .list (PoolSpec.sorted s.held)
+
 inductive Op where
   | alloc (k : Nat)
   | release (k : Nat)
@@ -139,6 +143,7 @@ inductive Op where
   | get (k : Nat)
   | owner (a : Nat)
   | reserve (k a : Nat)
+  | list
   deriving Repr, DecidableEq
 
 def step (s : State) : Op → State × Obs
@@ -150,6 +155,7 @@ def step (s : State) : Op → State × Obs
   | .get k => (s, get s k)
   | .owner a => (s, owner s a)
   | .reserve k a => reserve s k a
+  | .list => (s, listing s)
 
 def run (s : State) (ops : List Op) : State := ops.foldl (fun st op => (step st op).1) s
 
@@ -185,10 +191,15 @@ def genLocal (c : V4Cfg) : List Nat :=
     let ip := (c.net + (j + 1)) % 2 ^ 32
     if ip = c.gw then Option.none else some ip
 
-/-- pppoe.NewIPPool: walk from the network address; skip the gateway and 255.255.255.255
-    (`isBroadcast` tests only the all-ones address, NOT the subnet's broadcast address) -/
+/-- what NewIPPool keeps of the addresses it walks over: not the gateway and not a broadcast address
+    (`isBroadcast`: 255.255.255.255, or the last address of a network with more than two addresses —
+    since the repair of finding KF-pppoe-broadcast) -/
+def pppoeKeep (c : V4Cfg) (a : Nat) : Bool :=
+  a != c.gw && a != 4294967295 && !(decide (2 ≤ c.hostBits) && a == c.net + 2 ^ c.hostBits - 1)
+
+/-- pppoe.NewIPPool: walk from the network address; skip the gateway and the broadcast addresses -/
 def genPppoe (c : V4Cfg) : List Nat :=
-  walk 32 (containsNet c.net c.hostBits) (fun a => a != c.gw && a != 4294967295) (2 ^ c.hostBits) c.net
+  walk 32 (containsNet c.net c.hostBits) (pppoeKeep c) (2 ^ c.hostBits) c.net
 
 structure V6Cfg where
   base : Nat           -- masked network address (net.ParseCIDR)
@@ -238,13 +249,17 @@ def MGeo.usable (mg : MGeo) : Nat :=
 structure MSt where
   mon    : Mon := []
   parked : List Nat := []
+  /-- the distinct addresses MarkUnavailable was called with -/
+  marked : List Nat := []
 
 inductive MEv where
   | pool (e : Ev)
   /-- MarkUnavailable(a) was called -/
   | marked (a : Nat)
-  /-- Stats() of a free list: allocated, available, total -/
-  | statsFL (alloc avail total : Nat)
+  /-- Stats() of a free list: allocated, available, total, and (dhcp.Pool) unavailable -/
+  | statsFL (alloc avail total : Nat) (unavail : Option Nat)
+  /-- Contains(a) answered b; the network is [lo, lo+span) -/
+  | contains (a lo span : Nat) (b : Bool)
 
 def mcheck (mg : MGeo) (st : MSt) : MEv → MSt × List Verdict
   | .pool .exhausted =>
@@ -264,15 +279,23 @@ def mcheck (mg : MGeo) (st : MSt) : MEv → MSt × List Verdict
     let (m', vs) := check mg.g st.mon e
     ({ st with mon := m' }, vs)
   | .marked a =>
+    let st := { st with marked := if st.marked.contains a then st.marked else a :: st.marked }
     -- an address leaves circulation when it is usable, not held and not already parked
     if inRange mg.g a && !(mg.holes.contains a) && (holderOf st.mon a).isNone && !(st.parked.contains a)
     then ({ st with parked := a :: st.parked }, []) else (st, [])
-  | .statsFL al av tot =>
+  | .contains a lo span b =>
+    (st, if b = (decide (lo ≤ a) && decide (a < lo + span)) then [] else
+           [("agree", s!"Contains({a}) answered {b} for the network [{lo}, {lo + span})")])
+  | .statsFL al av tot un =>
     let cap := mg.usable - st.parked.length
     (st, (if al = st.mon.length then [] else [("count", s!"reported allocated={al}, true={st.mon.length}")]) ++
          (if tot = cap then [] else [("total", s!"reported total={tot}, true={cap}")]) ++
          (if av + st.mon.length = cap then [] else
-            [("total", s!"reported available={av}, true={cap - st.mon.length}")]))
+            [("total", s!"reported available={av}, true={cap - st.mon.length}")]) ++
+         (match un with
+           | some u => if u = st.marked.length then [] else
+               [("count", s!"reported unavailable={u}, distinct addresses marked={st.marked.length}")]
+           | none => []))
 
 end Spec
 end Bng.FreeList
